@@ -31,7 +31,123 @@ from treadmill.scheduler import master as mastermod
 from treadmill.scheduler import masterapi
 from treadmill.scheduler import zkbackend
 
+from treadmill.scheduler import loader as loadermod
+
+from oracles import cellobs
+from oracles import cellcheck
+
 scheduler.DIMENSION_COUNT = 3
+
+CELL_PROPS = ('C01', 'C04', 'C05')
+_TRUTH = None
+_WRAPPED = False
+
+
+def _own_mb(value):
+    """The harness's own reading of a memory/disk quantity, in MB."""
+    text = str(value).strip().upper()
+    if text in ('0', ''):
+        return 0.0
+    num, unit = int(text[:-1]), text[-1]
+    return float({'K': num // 1024, 'M': num, 'G': num * 1024}[unit])
+
+
+def _own_cpu(value):
+    text = str(value).strip()
+    return float(int(text[:-1]) if text.endswith('%') else int(text))
+
+
+def _own_vec(data):
+    return [_own_mb(data.get('memory', 0)), _own_cpu(data.get('cpu', 0)),
+            _own_mb(data.get('disk', 0))]
+
+
+class MasterTruth:
+    """What the harness itself reads from the records the master loaded."""
+
+    def __init__(self):
+        self.srv = {}
+        self.apps = {}
+        self.groups = {}
+
+    def capacity_of(self, sname):
+        data = self.srv.get(sname)
+        return _own_vec(data) if data else None
+
+    def demand_of(self, aname):
+        data = self.apps.get(aname)
+        return _own_vec(data) if data else None
+
+    def limits_of(self, aff):
+        for data in self.apps.values():
+            if data.get('affinity') == aff:
+                return data.get('affinity_limits') or {}
+        return {}
+
+    def affinity_of(self, aname):
+        data = self.apps.get(aname)
+        return data.get('affinity') if data else None
+
+    def group_of(self, aname):
+        data = self.apps.get(aname)
+        return data.get('identity_group') if data else None
+
+    def group_count(self, gname):
+        return self.groups.get(gname, 0)
+
+    def why_unplaced(self, app, ctx):
+        for ev in ctx.rec.events:
+            if ev[0] == 'infeasible' and ev[1] == app.name:
+                return 'infeasible-skip'
+        if app.schedule_once and app.evicted:
+            return 'schedule-once-evicted'
+        return 'other'
+
+
+def _install_truth_wrappers():
+    global _WRAPPED
+    if _WRAPPED:
+        return
+    _WRAPPED = True
+    orig_create_server = loadermod.Loader.create_server
+    orig_load_app = loadermod.Loader.load_app
+    orig_conf = scheduler.Cell.configure_identity_group
+    orig_rm = scheduler.Cell.remove_identity_group
+
+    def create_server(self, servername, data):
+        if _TRUTH is not None:
+            _TRUTH.srv[servername] = dict(data)
+        return orig_create_server(self, servername, data)
+
+    def load_app(self, appname):
+        rc = orig_load_app(self, appname)
+        truth = _TRUTH
+        if truth is not None:
+            if appname in self.cell.apps:
+                if appname not in truth.apps:
+                    manifest = self.backend.get_default(
+                        z.path.scheduled(appname))
+                    if manifest:
+                        truth.apps[appname] = manifest
+            else:
+                truth.apps.pop(appname, None)
+        return rc
+
+    def configure_identity_group(self, name, count):
+        if _TRUTH is not None:
+            _TRUTH.groups[name] = count
+        return orig_conf(self, name, count)
+
+    def remove_identity_group(self, name):
+        if _TRUTH is not None:
+            _TRUTH.groups.pop(name, None)
+        return orig_rm(self, name)
+
+    loadermod.Loader.create_server = create_server
+    loadermod.Loader.load_app = load_app
+    scheduler.Cell.configure_identity_group = configure_identity_group
+    scheduler.Cell.remove_identity_group = remove_identity_group
+
 
 WATCHED = (z.SERVER_PRESENCE, z.SCHEDULED, z.EVENTS, z.BLACKEDOUT_SERVERS)
 DAY = 86400.0
@@ -86,6 +202,8 @@ class World:
         self.dirty_since_cycle = True
         self.last_step_writes = 0
         self.died = {}
+        self.cur_cell = None
+        self.truth = None
         self._setup_static()
 
     # ------------------------------------------------------------------
@@ -137,6 +255,11 @@ class World:
         self.queue = []
         self.seen_cversion = {}
         master = mastermod.Master(zkbackend.ZkBackend(client), 'cell')
+        self.cur_cell = master.cell
+        if self.prop in CELL_PROPS:
+            global _TRUTH
+            self.truth = MasterTruth()
+            _TRUTH = self.truth
         self._guard('start', lambda: (master.create_rootns(),
                                       master.store_timezone()))
         base = client.nwrites
@@ -155,6 +278,41 @@ class World:
         self.probes['starts'] += 1
         self.cycles_since_start = 0
         self.dirty_since_cycle = False
+
+    def cycle_hook(self, cell, orig_schedule):
+        """Observe a cell.schedule() made by the real Master (C01/C04/C05 at
+        master level: the ZooKeeper->model path is part of the run)."""
+        if cell is not self.cur_cell or self.prop not in CELL_PROPS:
+            return orig_schedule(cell)
+        ctx = cellcheck.CycleCtx(cell, self.truth)
+        ctx.pre = cellcheck.snapshot_apps(cell)
+        ctx.pre_srv = cellcheck.snapshot_servers(cell)
+        ctx.rec = cellobs.Recorder()
+        ctx.t0 = self.clock.peek()
+        cellobs.set_recorder(ctx.rec)
+        try:
+            ctx.placement = orig_schedule(cell)
+        finally:
+            cellobs.set_recorder(None)
+        ctx.t1 = self.clock.peek()
+        ctx.post = cellcheck.snapshot_apps(cell)
+        self.probes['cell_cycles_checked'] = \
+            self.probes.get('cell_cycles_checked', 0) + 1
+        changed = any(ctx.pre.get(n) is None or ctx.pre[n].server != p.server
+                      for n, p in ctx.post.items())
+        evictions = any(e[0] == 'remove' and e[3] == 'find'
+                        for e in ctx.rec.events)
+        if self.prop == 'C01':
+            self.nontrivial += 1 if changed else 0
+        elif self.prop == 'C04':
+            self.nontrivial += 1 if evictions else 0
+        else:
+            self.nontrivial += 1 if any(
+                p.identity is not None for p in ctx.post.values()) else 0
+        bad = cellcheck.CHECKS[self.prop](ctx)
+        if bad is not None:
+            self.fail(bad[0] + ':master-level', bad[1])
+        return ctx.placement
 
     def _guard(self, where, fn):
         try:
@@ -566,7 +724,9 @@ class World:
                        for n, a in master.cell.apps.items())
         self.fps.append(logmod.fingerprint(state))
         self.log.ev(when, state)
-        if self.prop in ('C09', 'C10'):
+        if self.prop in CELL_PROPS:
+            pass
+        elif self.prop in ('C09', 'C10'):
             self.check_published(when)
         elif self.prop == 'C11':
             self.restart_probe(caught_up and when == 'cycle')
@@ -981,7 +1141,7 @@ def make_config(prop, tier, rng):
 
 class MasterSim(enginemod.Engine):
     name = 'mastersim'
-    serves = ('C09', 'C10', 'C11')
+    serves = ('C09', 'C10', 'C11', 'C01', 'C04', 'C05')
     real_components = (
         'treadmill.scheduler.master.Master (create_rootns, load_model, '
         'init_schedule, process and every event handler, reschedule, '
@@ -1016,6 +1176,13 @@ class MasterSim(enginemod.Engine):
                            '/placement tree is compared with the model; '
                            'non-trivial: a master cycle that performed more '
                            'than two storage writes')
+        if prop in CELL_PROPS:
+            return base + ('every cell.schedule() the real Master runs is '
+                           'observed and checked with the same oracle as in '
+                           'cellsim, against the harness\'s own parse of the '
+                           'ZooKeeper records the master loaded (own unit '
+                           'parser: 1G = 1024M, 100% = 100); non-trivial as '
+                           'in cellsim')
         if prop == 'C10':
             return base + ('for one publication step per history (a '
                            'reschedule or the init_schedule of a start) every '
@@ -1034,7 +1201,7 @@ class MasterSim(enginemod.Engine):
                 'the harness, not executed']
 
     def quick_runs(self, prop):
-        return {'C09': 1600, 'C10': 160, 'C11': 1200}[prop]
+        return {'C09': 1600, 'C10': 160, 'C11': 1200}.get(prop, 1600)
 
     def make_config(self, prop, tier, rng):
         return make_config(prop, tier, rng)
@@ -1048,8 +1215,13 @@ class MasterSim(enginemod.Engine):
         clock.install()
         saved_exit = utils.sys_exit
         utils.sys_exit = _sys_exit
+        global _TRUTH
         try:
             world = World(config, clock, prop, log)
+            if prop in CELL_PROPS:
+                cellobs.install()
+                _install_truth_wrappers()
+                cellobs.set_cycle_hook(world.cycle_hook)
             t_begin = clock.peek()
             executed = []
             n = 0
@@ -1101,6 +1273,9 @@ class MasterSim(enginemod.Engine):
         finally:
             utils.sys_exit = saved_exit
             clock.uninstall()
+            cellobs.set_cycle_hook(None)
+            cellobs.set_recorder(None)
+            _TRUTH = None
         return res
 
     def execute(self, prop, config, seed, ops=None, keep_log=False):
